@@ -445,6 +445,8 @@ func (vc *VC) libraryCall(st *State, call *ast.CallExpr, key string, fn *types.F
 		return one(vc.uf("itoa", SStr, a(0)))
 	case "strconv.FormatUint", "strconv.FormatInt":
 		return one(vc.uf("fmtint", SStr, a(0), a(1)))
+	case "path/filepath.Ext":
+		return one(vc.uf("pathext", SStr, a(0)))
 	case "path/filepath.Join":
 		// variadic packed: args[0] is the slice
 		return one(vc.uf("pathjoin", SStr, Select(vc.elems(st, SStr), sbase(a(0))), slen(a(0))))
